@@ -592,6 +592,7 @@ Lemma check_cols_ok : forall cols seen, check_cols cols seen = Ok tt ->
   forall c, In c cols -> supported (c_type c) = true.
 Proof.
   induction cols as [|x cols IH]; intros seen H c Hc; [contradiction|]. cbn in H.
+  destruct (is_empty (c_name x)); [discriminate|].
   destruct (supported (c_type x)) eqn:E; cbn in H; [|discriminate].
   destruct (existsb _ seen); [discriminate|].
   destruct Hc as [<-|Hc]; [exact E|eapply IH; eauto].
